@@ -31,7 +31,7 @@ template<class P>
 void go(FILE * out, const char * fam, int idx, int mode, const RunCfg & cfg, P & prob, const std::string & extra = "")
 {
   std::string tag = std::string(fam) + "/" + std::to_string(idx);
-  auto outs       = run_mode(mode, prob, cfg, out, 1, tag);
+  auto outs       = run_mode(mode, prob, cfg, out, 3, tag);
   emit_run(out, fam, idx, mode, cfg, prob, outs, extra);
 }
 
@@ -143,12 +143,12 @@ static void fam_lin_static(FILE * out, Rng & rng, int idx)
   const int mode = idx % 4;  // analytic, numerical, default (with / without jacobian)
   switch (mode) {
   case 2: {
-    auto outs = run_problem<diff::Type::Default, true>(p, cfg, out, 1, "lin_static");
+    auto outs = run_problem<diff::Type::Default, true>(p, cfg, out, 3, "lin_static");
     emit_run(out, "lin_static", idx, 2, cfg, p, outs, extra);
     break;
   }
   case 3: {
-    auto outs = run_problem<diff::Type::Default, false>(p, cfg, out, 1, "lin_static");
+    auto outs = run_problem<diff::Type::Default, false>(p, cfg, out, 3, "lin_static");
     emit_run(out, "lin_static", idx, 3, cfg, p, outs, extra);
     break;
   }
